@@ -87,6 +87,8 @@ def q(s):
 def atom_text(a, as_string=False):
     if a[0] == "s":
         return a[1]
+    if a[0] == "m":  # a macro reference, already in its textual form (lexical variants of C04)
+        return a[1]
     lit = a[1]
     import re
 
@@ -584,13 +586,79 @@ def _emit(out, pad, line, style, rng):
         out.append(rng.choice(["", pad + "# a comment", "#another", "    "]))
 
 
-def _render_styled(entries, ind, out, style, rng):
+_NUMLIT = None
+
+
+def _with_macros(e, rng, defs):
+    """A copy of config entry `e` in which some literal values stand as macro references; `defs` receives the
+    macro definition lines that must precede the entry.  Names come from a pool of two, so that a later entry
+    redefines a macro an earlier one used (each use must see the definition in force at its own line)."""
+    import copy
+    import re
+
+    e = copy.deepcopy(e)
+    typ = e["type"]
+    free = ["MAC_A", "MAC_B", "MAC_C", "MAC_D", "MAC_E", "MAC_F"]  # one definition per name in front of one entry
+    used = set()
+
+    def ref(lit, as_string):
+        if not free:
+            return None
+        name = free[0]
+        op = rng.choice(["=", ":="])
+        if not as_string:
+            if not re.fullmatch(r"-?[0-9]+|0[xX][0-9a-fA-F]+|-?[0-9]+\.[0-9]+", lit):
+                return None
+            defs.append("%s %s %s" % (free.pop(0), op, lit))
+            return ["m", "$(%s)" % name]
+        if not re.fullmatch(r"[A-Za-z0-9_]+", lit):
+            return None
+        if len(lit) >= 2 and "MAC_S" not in used and rng.random() < 0.5:
+            # the whole literal from two macros: the reference text is the same wherever this form is used,
+            # only the definitions in force differ
+            used.add("MAC_S")
+            defs.append("MAC_S %s %s" % (op, lit[:-1]))
+            defs.append("MAC_T %s %s" % (op, lit[-1]))
+            return ["m", '"$(MAC_S)$(MAC_T)"']
+        free.pop(0)
+        form = rng.randrange(3)
+        if form == 0:  # a quoted macro value, used bare
+            defs.append('%s %s "%s"' % (name, op, lit))
+            return ["m", "$(%s)" % name]
+        if form == 1 or len(lit) < 2:  # a bare word, used inside quotes
+            defs.append("%s %s %s" % (name, op, lit))
+            return ["m", '"$(%s)"' % name]
+        defs.append("%s %s %s" % (name, op, lit[:-1]))  # embedded in a longer literal
+        return ["m", '"$(%s)%s"' % (name, lit[-1])]
+
+    for d in e["defaults"]:
+        if typ != "bool" and d["v"][0] == "c" and rng.random() < 0.6:
+            d["v"] = ref(d["v"][1], typ == "string") or d["v"]
+        elif typ == "bool" and d["v"] in (["y"], ["n"]) and rng.random() < 0.4 and free:
+            name = free.pop(0)
+            defs.append("%s := %s" % (name, d["v"][0]))
+            d["v"] = ["s", "$(%s)" % name]
+    for r in e["ranges"]:
+        for key in ("lo", "hi"):
+            if r[key][0] == "c" and rng.random() < 0.5:
+                r[key] = ref(r[key][1], False) or r[key]
+    return e
+
+
+def _render_styled(entries, ind, out, style, rng, in_choice=False):
     unit = "\t" if style.get("tabs") else "    "
     pad = unit * ind
     for e in entries:
         k = e["k"]
         if style.get("comments") and rng.random() < 0.3:
             out.append(pad + "# entry comment")
+        if k == "config" and style.get("macros") and not in_choice:
+            defs = []
+            e = _with_macros(e, rng, defs)
+            for dl in defs:
+                out.append(pad + dl)
+            if defs:
+                out.append("")
         if k == "config":
             out.append("%s%s %s" % (pad, "menuconfig" if e.get("menuconfig") else "config", e["name"]))
             for ln in _config_lines(e, style, rng):
@@ -614,13 +682,13 @@ def _render_styled(entries, ind, out, style, rng):
             for ln in props:
                 _emit(out, pad + unit, ln, style, rng)
             out.append("")
-            _render_styled(e["children"], ind + 1, out, style, rng)
+            _render_styled(e["children"], ind + 1, out, style, rng, in_choice=in_choice)
             out.append("%sendmenu" % pad)
             out.append("")
         elif k == "if":
             out.append("%sif %s" % (pad, expr_text(e["c"])))
             out.append("")
-            _render_styled(e["children"], ind + 1, out, style, rng)
+            _render_styled(e["children"], ind + 1, out, style, rng, in_choice=in_choice)
             out.append("%sendif" % pad)
             out.append("")
         elif k == "choice":
@@ -642,7 +710,7 @@ def _render_styled(entries, ind, out, style, rng):
                 out.append(pad + unit + "help")
                 out.append(pad + unit + unit + "Choice help.")
             out.append("")
-            _render_styled(e["children"], ind + 1, out, style, rng)
+            _render_styled(e["children"], ind + 1, out, style, rng, in_choice=True)
             out.append("%sendchoice" % pad)
             out.append("")
         elif k == "comment":
@@ -660,6 +728,8 @@ STYLES = {
     "help": {"help": True},
     "tabs": {"tabs": True},
     "rsource": {"rsource": True},
+    "macros": {"macros": True},
+    "macros+rsource": {"macros": True, "rsource": True, "comments": True},
     "everything": {"separate_prompt": True, "shuffle": True, "comments": True, "continuation": True, "help": True, "rsource": True},
 }
 
